@@ -258,21 +258,70 @@ def index_names(idx):
     return [i if isinstance(i, str) else repr(i) for i in items]
 
 
+_SIG_CACHE = {}
+
+
+def bind(shape, args, kw):
+    """bind a call to a signature shape (list of parameter dicts, see props/C34.Decl) the way Python binds arguments.
+    -> (dict name -> value with default values filled in, set of names that took their default); TypeError if the
+    call does not fit the signature"""
+    import inspect
+    key = repr(shape)
+    sg = _SIG_CACHE.get(key)
+    if sg is None:
+        ps = []
+        for it in shape:
+            kind = inspect.Parameter.KEYWORD_ONLY if it['kwonly'] else inspect.Parameter.POSITIONAL_OR_KEYWORD
+            d = eval(it['default'], {}) if it['default'] is not None else inspect.Parameter.empty
+            ps.append(inspect.Parameter(it['name'], kind, default=d))
+        sg = _SIG_CACHE[key] = inspect.Signature(ps)
+    ba = sg.bind(*args, **kw)
+    given = set(ba.arguments)
+    ba.apply_defaults()
+    return dict(ba.arguments), {it['name'] for it in shape} - given
+
+
+def plain_value(ctype, v):
+    """what a non-fused parameter declared with C type ctype holds for argument v"""
+    if ctype == 'double':
+        return float(v)
+    if ctype == 'long':
+        if not isinstance(v, int):
+            raise TypeError('an integer is required')
+        return int(v)
+    if ctype == 'str':
+        if v is not None and type(v) is not str:
+            raise TypeError('str')
+    return v
+
+
 class RefFused:
     """reference stand-in for a fused def/cpdef function: call dispatches by the documented rules (canonical
-    choice), indexing selects the named specialisation"""
+    choice) on the values bound to the fused parameters (arguments passed by position or keyword, or the default
+    value of the parameter), indexing selects the named specialisation. shape (optional) = whole signature
+    including non-fused parameters and default values; result = tags + fused values + non-fused values."""
 
-    def __init__(self, sets, params, cat):
-        self.sets, self.params, self.cat = sets, params, cat
+    def __init__(self, sets, params, cat, shape=None):
+        self.sets, self.params, self.cat, self.shape = sets, params, cat, shape
 
-    def _result(self, chosen, args):
+    def _bind(self, args, kw):
+        """-> (values of the fused parameters in order, values of the non-fused parameters in order)"""
+        if self.shape is None:
+            if kw or len(args) != len(self.params):
+                raise TypeError('argument count')
+            return list(args), []
+        bound, _ = bind(self.shape, args, kw)
+        fused = sorted((it['i'], it['name']) for it in self.shape if it['k'] == 'F')
+        plain = [plain_value(it['ctype'], bound[it['name']]) for it in self.shape if it['k'] == 'P']
+        return [bound[n] for _, n in fused], plain
+
+    def _result(self, chosen, args, plain=()):
         tags = tuple(typeof_name(chosen[p]) for p in self.params)
         vals = tuple(value(self.cat, chosen[p], a) for p, a in zip(self.params, args))
-        return tags + vals
+        return tags + vals + tuple(plain)
 
-    def __call__(self, *args):
-        if len(args) != len(self.params):
-            raise TypeError('argument count')
+    def __call__(self, *args, **kw):
+        args, plain = self._bind(args, kw)
         chosen = {}
         for p, a in zip(self.params, args):
             if p not in chosen:
@@ -280,7 +329,7 @@ class RefFused:
                 if canon is None:
                     raise TypeError('No matching signature found')
                 chosen[p] = canon
-        return self._result(chosen, args)
+        return self._result(chosen, args, plain)
 
     def __getitem__(self, idx):
         names = index_names(idx)
@@ -292,10 +341,9 @@ class RefFused:
             raise KeyError('|'.join(names))
         chosen = dict(zip(order, names))
 
-        def call(*args):
-            if len(args) != len(self.params):
-                raise TypeError('argument count')
-            return self._result(chosen, args)
+        def call(*args, **kw):
+            args, plain = self._bind(args, kw)
+            return self._result(chosen, args, plain)
         return call
 
 
